@@ -19,6 +19,7 @@
     in between; the observable is the device buffer followed by every call log. *)
 From Coq Require Import ZArith List Bool.
 From KV Require Import Base.Outcome Base.Corr C02.Model.
+From KV Require Import Base.IEEE Base.Num C19.Model C19.ModelF32 C19.Run C06.Model C06.Dur C06.Run C03.Model C02.ModelCtl.
 Import ListNotations.
 Local Open Scope Z_scope.
 
@@ -71,8 +72,24 @@ Definition LE := tES PO.
 (** scene terms written by the harness *)
 Inductive rtrack := RT (adv gain : Z) (subs : list rtrack) (snds : list (Z * Z)) (fx : list (Z * Z)) (routes : list (Z * Z)).
 Inductive rsend := RS (key gain : Z) (fx : list (Z * Z)).
+(** control scenes (see the second half of this file): a track's identity, volume (f32 bit pattern of the
+    decibel value), send routes (send key, volume bits) sorted by key, probe sounds, probe effects, sub-tracks *)
+Inductive rcnode := RCN (id vol : Z) (routes : list (Z * Z)) (snds fx : list (Z * Z)) (subs : list rcnode).
+Definition rtw : Type := (rstart * Z * Z * Z)%type.       (* start, duration ns, easing kind, power *)
+Inductive rcmd :=
+| KVol (tr db : Z) (tw : rtw)
+| KRoute (tr r db : Z) (tw : rtw)                   (* r: index in the track's (sorted) route list *)
+| KPause (tr : Z) (tw : rtw)
+| KResume (tr : Z) (st : rstart) (tw : rtw).
+(** one device callback: the commands the handles wrote since the previous callback STARTED (in the order
+    of writing), its number of frames, what the clocks show during it *)
+Inductive rccb := RCCb (cmds : list rcmd) (n : Z) (clocks : list (Z * Z * Z * Z)).
+(** handle operations on the track tree as far as removal is concerned *)
+Inductive rkop := RKAdd (parent id persist : Z) | RKPlay (tr : Z) | RKDrop (tr : Z).
 Inductive case :=
-| CScene (b ch : Z) (cbs : list Z) (main_gain : Z) (main_snds main_fx : list (Z * Z)) (subs : list rtrack) (sends : list rsend).
+| CScene (b ch : Z) (cbs : list Z) (main_gain : Z) (main_snds main_fx : list (Z * Z)) (subs : list rtrack) (sends : list rsend)
+| CCtl (b ch dt : Z) (main : rcnode) (sends : list (Z * rcnode)) (subs : list rcnode) (cbs : list rccb) (tab : list (Z * Z * Z))
+| CKeep (rounds : list (list rkop)).
 
 Definition mk_snds (l : list (Z * Z)) : list LS := map (fun s => (s, @nil nat)) l.
 Definition mk_fxs (l : list (Z * Z)) : list LE := map (fun s => (s, @nil nat)) l.
@@ -122,6 +139,153 @@ Fixpoint go_callbacks (ch : nat) (r : renderer PO) (cbs : list Z) : outcome (ren
       Ok (fst y, snd x ++ snd y)
   end.
 
+(** * Control scenes: the same buffer-level mixer, instantiated with binary32 frames and gains and with the
+    CONCRETE control part of C02/ModelCtl.v (binary64 time, binary32 decibels): volumes and route volumes
+    with tweens, pause / resume / resume_at with fades, delayed and clock start times, commands applied at
+    callback starts through the one-slot-per-kind mailbox.  Probe sounds and effects as above, in binary32
+    (unit 2^-24).  libm's powf (as_amplitude of a decibel value strictly between -60 and 0) comes from the
+    table recorded by the harness. *)
+Definition F32 := (f32 * f32)%type.
+Definition f32zero : F32 := (Z32 0, Z32 0).
+Definition f32add (a b : F32) : F32 := (add32 (fst a) (fst b), add32 (snd a) (snd b)).
+Definition f32scale (a : F32) (g : f32) : F32 := (mul32 (fst a) g, mul32 (snd a) g).
+Definition units32 (v : Z) : f32 := dy32 v (-24).
+Fixpoint gen_snd32 (id pos : Z) (n : nat) : list F32 :=
+  match n with
+  | O => []
+  | S n' => let v := id * 2 ^ 13 + (pos mod 128) * 2 ^ 6 in (units32 v, units32 (v + 2 ^ 9)) :: gen_snd32 id (pos + 1) n'
+  end.
+Definition probe_snd32 (_ : info f64) (s : psnd) (n : nat) : psnd * list F32 :=
+  ((fst s, snd s + Z.of_nat n), gen_snd32 (fst s) (snd s) n).
+Fixpoint gen_fx32 (k pos : Z) (xs : list F32) : list F32 :=
+  match xs with
+  | [] => []
+  | x :: r =>
+      let o := if k =? 0 then Z32 0 else units32 (k * 2 ^ 12 + (pos mod 8) * 2 ^ 6) in
+      (add32 (mul32 (fst x) half32) o, add32 (mul32 (snd x) half32) o) :: gen_fx32 k (pos + 1) r
+  end.
+Definition probe_fx32 (_ : info f64) (e : pfx) (xs : list F32) : pfx * list F32 :=
+  ((fst e, snd e + Z.of_nat (length xs)), gen_fx32 (fst e) (snd e) xs).
+(** `finite_clamped` of backend/renderer.rs *)
+Definition finite_clamped32 (s : f32) : f32 := if isnan32 s then Z32 0 else clamp32 s (Z32 (-1)) (Z32 1).
+Definition out_frame_32 : nat -> F32 -> list f32 :=
+  out_frame_of f32 finite_clamped32 add32 (fun x => div32 x (Z32 2)) (Z32 0).
+Definition silence32 : f32 := Z32 (-60).
+Definition identity32 : f32 := Z32 0.
+Definition mk_tw (t : rtw) : tween f64 :=
+  let '(s, d, ek, p) := t in {| tw_start := mk_start s; tw_dur := d; tw_easing := mk_easing ek p |}.
+
+Section CtlRun.
+  Variable tab : list (Z * Z * Z).
+  Variable dt : f64.
+  Definition amp32 (db : f32) : f32 := db_as_amplitude (powf32_tab tab (Z32 10)) db.
+  Definition powf_none (x y : f64) : f64 := powf64_tab [] x y.
+  Definition ctl0 : ops :=
+    ctl_ops powf_none f32 lerp32 silence32 identity32 F32 f32 amp32 mul32 dt psnd pfx f32
+            f32zero f32add f32scale probe_snd32 probe_fx32 (fun e _ => e) out_frame_32.
+  Definition PC : ops := logged ctl0.
+  Definition csT := tcs f64 f32.
+
+  Definition mk_cs (sub : bool) (id vol : Z) (routes : list (Z * Z)) : tCS PC :=
+    Ok {| k_id := Z.to_nat id;
+          k_vol := param_new (Fixed (f32_of_bits vol)) (f32_of_bits vol);
+          k_routes := map (fun r => param_new (Fixed (f32_of_bits (snd r))) (f32_of_bits (snd r))) routes;
+          k_psm := if sub then Some (psm_new f32 silence32 identity32 None) else None |}.
+  Definition mk_lsnds (l : list (Z * Z)) : list (tSS PC) := map (fun s => (s, @nil nat)) l.
+  Definition mk_lfxs (l : list (Z * Z)) : list (tES PC) := map (fun s => (s, @nil nat)) l.
+  Fixpoint mk_ctrack (t : rcnode) : strack PC :=
+    match t with
+    | RCN id vol routes snds fx subs =>
+        STrk (O := PC) (mk_cs true id vol routes) (map mk_ctrack subs) (mk_lsnds snds) (mk_lfxs fx)
+             (map (fun r => Z.to_nat (fst r)) routes)
+    end.
+  Definition mk_cmixer (main : rcnode) (sends : list (Z * rcnode)) (subs : list rcnode) : smixer PC :=
+    match main with
+    | RCN mid mvol _ msn mfx _ =>
+        {| sx_main := {| sm_ctl := mk_cs false mid mvol []; sm_snds := mk_lsnds msn; sm_fx := mk_lfxs mfx |};
+           sx_subs := map mk_ctrack subs;
+           sx_sends := map (fun ks => match snd ks with
+                                      | RCN sid svol _ _ sfx _ =>
+                                          (Z.to_nat (fst ks), {| ss_ctl := mk_cs false sid svol []; ss_fx := mk_lfxs sfx |})
+                                      end) sends |}
+    end.
+
+  (** `read_commands` of every track at a callback start: the handle writes go through the mailbox (one slot
+      per kind, the last write wins), then the slots are read in the code's order *)
+  Definition hw_of (c : rcmd) : Z * hwrite f64 f32 :=
+    match c with
+    | KVol tr db tw => (tr, WVol (Fixed (f32_of_bits db)) (mk_tw tw))
+    | KRoute tr r db tw => (tr, WRoute (Z.to_nat r) (Fixed (f32_of_bits db)) (mk_tw tw))
+    | KPause tr tw => (tr, WPause (mk_tw tw))
+    | KResume tr st tw => (tr, WResume (mk_start st) (mk_tw tw))
+    end.
+  Definition read_cs (cmds : list rcmd) (c : tCS PC) : tCS PC :=
+    match c with
+    | Ok cs =>
+        let mine := map snd (filter (fun x => fst x =? Z.of_nat (k_id cs)) (map hw_of cmds)) in
+        Ok (ctl_read f32 silence32 identity32 cs (fold_left write mine (no_cmd (length (k_routes cs)))))
+    | x => x
+    end.
+  Fixpoint map_track (f : tCS PC -> tCS PC) (t : track PC) : track PC :=
+    match t with
+    | Trk cs subs snds fx routes temp => Trk (O := PC) (f cs) (map (map_track f) subs) snds fx routes temp
+    end.
+  Definition map_mixer (f : tCS PC -> tCS PC) (mx : mixer PC) : mixer PC :=
+    let mn := mx_main PC mx in
+    {| mx_main := {| mn_ctl := f (mn_ctl PC mn); mn_snds := mn_snds PC mn; mn_fx := mn_fx PC mn; mn_temp := mn_temp PC mn |};
+       mx_subs := map (map_track f) (mx_subs PC mx);
+       mx_sends := map (fun ks => (fst ks, {| sd_ctl := f (sd_ctl PC (snd ks)); sd_fx := sd_fx PC (snd ks);
+                                               sd_input := sd_input PC (snd ks) |})) (mx_sends PC mx);
+       mx_temp := mx_temp PC mx |}.
+
+  Definition enc_lsnds (l : list (tSS PC)) : list Z := flat_map (fun s => enc_log (snd s)) l.
+  Definition enc_lfxs (l : list (tES PC)) : list Z := flat_map (fun s => enc_log (snd s)) l.
+  Fixpoint enc_ctrack (t : track PC) : list Z :=
+    match t with
+    | Trk _ subs snds fx _ _ => enc_lsnds snds ++ enc_lfxs fx ++ flat_map enc_ctrack subs
+    end.
+  Definition enc_cmixer (mx : mixer PC) : list Z :=
+    enc_lsnds (mn_snds PC (mx_main PC mx)) ++ enc_lfxs (mn_fx PC (mx_main PC mx))
+    ++ flat_map enc_ctrack (mx_subs PC mx)
+    ++ flat_map (fun ks => enc_lfxs (sd_fx PC (snd ks))) (mx_sends PC mx).
+  (** the pause state of every sub-track, in traversal order (-1: the control update panicked) *)
+  Definition enc_state (c : tCS PC) : Z :=
+    match c with
+    | Ok cs => match k_psm cs with Some m => state_code (ps m) | None => 0 end
+    | _ => -1
+    end.
+  Fixpoint enc_states (t : track PC) : list Z :=
+    match t with Trk cs subs _ _ _ _ => enc_state cs :: flat_map enc_states subs end.
+
+  Fixpoint go_ctl (ch : nat) (r : renderer PC) (cbs : list rccb) : outcome (renderer PC * list Z) :=
+    match cbs with
+    | [] => Ok (r, [])
+    | RCCb cmds n clocks :: cbs' =>
+        let r1 := Build_renderer PC (mk_info clocks [] : tI PC) (map_mixer (read_cs cmds) (r_mixer PC r))
+                                 (r_temp PC r) (r_b PC r) in
+        let! x := renderer_process PC ch r1 (Z.to_nat n) in
+        let! y := go_ctl ch (fst x) cbs' in
+        Ok (fst y, map bits_of_f32 (snd x) ++ flat_map enc_states (mx_subs PC (r_mixer PC (fst x))) ++ snd y)
+    end.
+End CtlRun.
+
+(** * Removal histories: rounds of handle operations, each followed by one callback start; the observable is
+    the number of sounds that the callback renders *)
+Definition mk_kop (o : rkop) : kop :=
+  match o with
+  | RKAdd p id pe => KAdd (Z.to_nat p) (Z.to_nat id) (negb (pe =? 0))
+  | RKPlay tr => KPlay (Z.to_nat tr)
+  | RKDrop tr => KDrop (Z.to_nat tr)
+  end.
+Fixpoint go_keep (root : ktree) (rounds : list (list rkop)) : list Z :=
+  match rounds with
+  | [] => []
+  | ops :: rest =>
+      let root1 := fold_left (fun t o => k_do t (mk_kop o)) ops root in
+      let root2 := k_on_start removable root1 in
+      Z.of_nat (k_sounds root2) :: go_keep root2 rest
+  end.
+
 Definition run (c : case) : list Z :=
   match c with
   | CScene b ch cbs mg msn mfx subs sends =>
@@ -131,4 +295,12 @@ Definition run (c : case) : list Z :=
            snd x ++ [if mixer_bufs_zero (r_mixer PO (fst x)) && all_zero (r_temp PO (fst x)) then 0 else 1]
                  ++ enc_mixer (r_mixer PO (fst x)))
         (go_callbacks (Z.to_nat ch) r0 cbs)
+  | CCtl b ch dt main sends subs cbs tab =>
+      let r0 := conc_renderer (PC tab (f64_of_bits dt)) (Z.to_nat b) (mk_info [] [])
+                  (mk_cmixer tab (f64_of_bits dt) main sends subs) in
+      encode_outcome
+        (fun x : renderer (PC tab (f64_of_bits dt)) * list Z =>
+           snd x ++ enc_cmixer tab (f64_of_bits dt) (r_mixer _ (fst x)))
+        (go_ctl tab (f64_of_bits dt) (Z.to_nat ch) r0 cbs)
+  | CKeep rounds => go_keep k_root rounds
   end.
